@@ -551,7 +551,7 @@ func (d *DI) callFunc(name, argText string) (MV, error) {
 			return MV{T: "int", S: strconv.Itoa(n)}, nil
 		case "todo":
 			if m, ok := str(0); ok {
-				return MV{}, &diError{m}
+				return MV{}, &diError{m + "\x01"} // \x01: nothing follows the message (further arguments are no part of it)
 			}
 			return MV{}, &diError{"parameter todo"}
 		}
